@@ -23,7 +23,7 @@ func init() {
 			"R3 Marshal replaces m.AVP and then recomputes Header.MessageLength from m.Len(); " +
 			"R4 the struct scanner builds its field index from, and recurses into embedded structs with, its own complete AVP list; R5 for pointer and interface fields 'empty' is exactly IsNil(). " +
 			"R2 also: exactly one AVP is produced per marshalled value (slices: one per element). R6 no function on the Marshal / Unmarshal path writes package-level state, so concurrent calls and calls in sequence cannot influence one another. " +
-			"R2 also: the Data of the produced AVP is a grouped value built in marshal or the field converted through a reflect value of the type the dictionary prescribes, never the field used as it is. R6 also: no append on the Marshal path has as its first argument a slice that can be one taken from the caller's struct. " +
+			"R2 also: the Data of the produced AVP is a grouped value built in marshal or the field converted through a reflect value of the type the dictionary prescribes, never the field used as it is. R4 also: in the field walkers the recursion into an embedded struct is conditioned on nothing but anonymous field / struct kind / no tag. R7: no reflect.ValueOf on that path is applied to a value that already is a reflect.Value. R6 also: no append on the Marshal path has as its first argument a slice that can be one taken from the caller's struct. " +
 			"NOT decided (not applicable to static analysis): that Unmarshal∘Marshal is the identity over field shapes and values — reflection-driven, value-level behaviour that only execution can settle; parseAvpTag's string handling.",
 		Rules: map[string]string{
 			"R1": "marshal's type switch is exhaustive over datatype.Available and each case targets the type whose Type() is the case constant",
@@ -32,8 +32,9 @@ func init() {
 			"R4": "Unmarshal scans every struct level (embedded structs included) against the complete AVP list of that level",
 			"R5": "omitempty: a pointer / interface field is empty exactly when it is nil",
 			"R6": "no package-level state is written on the Marshal / Unmarshal path",
+			"R7": "no reflect.ValueOf of a reflect.Value on the Marshal / Unmarshal path (a field handled that way panics)",
 		},
-		MinInstances: map[string]int{"R1": 18, "R2": 3, "R3": 1, "R4": 1, "R5": 1, "R6": 1},
+		MinInstances: map[string]int{"R1": 18, "R2": 3, "R3": 1, "R4": 1, "R5": 1, "R6": 1, "R7": 1},
 		Assumptions:  []string{"reflect.New(t)/Set/Convert produce a value of type t (package reflect contract)"},
 	})
 }
@@ -504,6 +505,58 @@ func (c *Ctx) c18Unmarshal() {
 		}
 		r.Check(good, "R4", key, c.fpos(f), "index built from, and embedded structs scanned with, the function's own complete AVP list", why)
 	}
+	// every embedded struct is descended into: in the functions that walk struct fields and recurse for embedded
+	// structs (marshal and unmarshal side), the recursion is conditioned on nothing but "anonymous field of struct
+	// kind without a tag" — any further condition (exportedness of the type's name, a name pattern, a cache)
+	// leaves some embedded structs out, their fields unmarshalled as zero and their AVPs not produced
+	for _, f := range c.P.LibraryFuncs() {
+		if pkgOf(f).Path() != pkgDiam || len(flow.Loops(f)) == 0 {
+			continue
+		}
+		takesValue := false
+		for _, p := range f.Params {
+			if flow.TypeIs(p.Type(), "reflect", "Value") {
+				takesValue = true
+			}
+		}
+		if !takesValue {
+			continue
+		}
+		loops := flow.Loops(f)
+		for _, ci := range flow.CallInstrs(f) {
+			call, ok := ci.(*ssa.Call)
+			if !ok || flow.StaticCallee(call) != f {
+				continue
+			}
+			l := flow.InnermostLoop(loops, call)
+			if l == nil {
+				continue
+			}
+			// is this the embedded-struct recursion? it is guarded by the Anonymous flag of a StructField
+			isEmb := false
+			for _, g := range flow.Guards(call) {
+				cond, neg := flow.Cond(g.If.Cond, g.Taken)
+				if tn, fld, _, ok := flow.FieldOf(cond); ok && tn == "StructField" && fld == "Anonymous" && !neg {
+					isEmb = true
+				}
+			}
+			if !isEmb {
+				continue
+			}
+			key := fname(f) + ":embedded-recursion-unconditional"
+			bad := ""
+			var at ssa.Instruction = call
+			for _, g := range flow.Guards(call) {
+				if !l.Blocks[g.If.Block()] {
+					continue // conditions before the field loop concern the whole value
+				}
+				if why := c18EmbeddedGuardOK(g.If.Cond); why != "" {
+					bad, at = why, g.If
+				}
+			}
+			r.Check(bad == "", "R4", key, c.pos(at), "the recursion into an embedded struct depends only on: anonymous field, struct kind, no tag", "the recursion into an embedded struct is additionally conditioned on "+bad+": embedded structs that fail the extra test are skipped without error — their AVPs are not produced by Marshal and their fields stay zero after Unmarshal")
+		}
+	}
 	// isEmptyValue by role: func(reflect.Value) bool switching on Kind()
 	for _, f := range c.P.LibraryFuncs() {
 		if pkgOf(f).Path() != pkgDiam || len(f.Params) != 1 || !flow.TypeIs(f.Params[0].Type(), "reflect", "Value") || f.Signature.Results().Len() != 1 {
@@ -864,6 +917,34 @@ func (c *Ctx) c18NoSharedState() {
 		return
 	}
 	cl := c.reach(roots, false, false, true)
+	// R7: reflect values are not wrapped a second time. reflect.ValueOf(v) of something that already is a
+	// reflect.Value describes the Value struct itself; the Elem / Set / Interface that follows panics or
+	// operates on the wrong object, so the field concerned is never marshalled.
+	{
+		n, wrapped := 0, 0
+		var fs []*ssa.Function
+		for f := range cl {
+			if c.P.IsLibrary(f) {
+				fs = append(fs, f)
+			}
+		}
+		sort.Slice(fs, func(i, j int) bool { return fname(fs[i]) < fname(fs[j]) })
+		for _, f := range fs {
+			for _, ci := range flow.CallInstrs(f) {
+				if !flow.IsCallTo(ci, "reflect", "", "ValueOf") || len(ci.Common().Args) != 1 {
+					continue
+				}
+				n++
+				if mi, ok := ci.Common().Args[0].(*ssa.MakeInterface); ok && flow.TypeIs(mi.X.Type(), "reflect", "Value") {
+					wrapped++
+					r.Fail("R7", fmt.Sprintf("%s:ValueOf-of-a-Value#%d", fname(f), wrapped), c.pos(ci), "reflect.ValueOf is applied to a reflect.Value ("+short(mi.X.String(), 40)+"): the result describes the Value struct, not the field — the Elem()/Set() that follows panics, so a struct with such a field cannot be marshalled at all")
+				}
+			}
+		}
+		if wrapped == 0 {
+			r.Ok("R7", "marshal-path:reflect-values-wrapped-once", "-", fmt.Sprintf("%d reflect.ValueOf calls on the Marshal / Unmarshal path, none applied to a reflect.Value", n))
+		}
+	}
 	bad := 0
 	isGlobalAddr := func(v ssa.Value) *ssa.Global {
 		for i := 0; i < 6; i++ {
@@ -920,4 +1001,78 @@ func (c *Ctx) c18NoSharedState() {
 	if bad == 0 {
 		r.Ok("R6", "marshal-path:no-shared-state", "-", fmt.Sprintf("%d functions on the Marshal/Unmarshal path write no package-level state", len(cl)))
 	}
+}
+
+// c18EmbeddedGuardOK: cond (a branch condition inside the field loop that dominates the embedded recursion) is one
+// of the tests that define an embedded struct — the loop bound, StructField.Anonymous, a Kind() comparison, the
+// tag's emptiness — or an error test. Returns a description of the condition otherwise.
+func c18EmbeddedGuardOK(cond ssa.Value) string {
+	cond, _ = flow.Cond(cond, true)
+	if tn, fld, _, ok := flow.FieldOf(cond); ok && tn == "StructField" && fld == "Anonymous" {
+		return ""
+	}
+	bo, ok := cond.(*ssa.BinOp)
+	if !ok {
+		if call, isCall := cond.(*ssa.Call); isCall {
+			return "the result of " + calleeLabel(call)
+		}
+		return short(cond.String(), 40)
+	}
+	isKind := func(v ssa.Value) bool {
+		call, ok := flow.Peel(v).(*ssa.Call)
+		if !ok {
+			return false
+		}
+		if o := flow.CalleeObj(call); o != nil && o.Pkg() != nil && o.Pkg().Path() == "reflect" && o.Name() == "Kind" {
+			return true
+		}
+		return call.Call.IsInvoke() && call.Call.Method.Name() == "Kind"
+	}
+	isTagLen := func(v ssa.Value) bool {
+		x, ok := builtinOf(v, "len")
+		if !ok {
+			return false
+		}
+		tn, fld, _, ok := flow.FieldOf(flow.Peel(x))
+		return ok && tn == "StructField" && fld == "Tag"
+	}
+	isTag := func(v ssa.Value) bool {
+		tn, fld, _, ok := flow.FieldOf(flow.Peel(v))
+		return ok && tn == "StructField" && fld == "Tag"
+	}
+	isNumField := func(v ssa.Value) bool {
+		call, ok := flow.Peel(v).(*ssa.Call)
+		if !ok {
+			return false
+		}
+		o := flow.CalleeObj(call)
+		return o != nil && o.Pkg() != nil && o.Pkg().Path() == "reflect" && o.Name() == "NumField" || ok && call.Call.IsInvoke() && call.Call.Method.Name() == "NumField"
+	}
+	for _, pr := range [][2]ssa.Value{{bo.X, bo.Y}, {bo.Y, bo.X}} {
+		a, b := pr[0], pr[1]
+		if isKind(a) {
+			return ""
+		}
+		if isTagLen(a) && isZeroConst(b) {
+			return ""
+		}
+		if s, isStr := flow.ConstString(b); isTag(a) && isStr && s == "" {
+			return ""
+		}
+		if isNumField(a) {
+			return ""
+		}
+		if isErrorType(a.Type()) && flow.IsNilConst(b) {
+			return ""
+		}
+		if _, isPhi := a.(*ssa.Phi); isPhi {
+			if _, isK := flow.ConstInt(b); isK || isNumField(b) {
+				return "" // loop counter against a bound
+			}
+			if bo2, ok := b.(*ssa.Call); ok && bo2 != nil {
+				return ""
+			}
+		}
+	}
+	return short(cond.String(), 50)
 }
